@@ -30,7 +30,7 @@ def chunks(tier, seed):
                 out.append(('case_all3', [dict(order=list(o), warm=warm, part=part, seed=seed)]))
     n5 = 300 if tier == 'quick' else 5000
     for k in range(0, n5, 50):
-        out.append(('case_sampled', [dict(seed=seed * 31337 + k, count=50, nvars=4 + (k // 50) % 2)]))
+        out.append(('case_sampled', [dict(seed=seed * 31337 + k, count=50, nvars=4 + (k // 50) % 2, dyn=(k // 100) % 2)]))
     return out
 
 
@@ -38,13 +38,20 @@ def _check_one(b, m, names, d, u, t, sub, fa, res, route):
     n = len(names)
     js = [names.index(x) for x in sub]
     want = tt_forall(t, js, n) if fa else tt_exists(t, js, n)
+    cube = None
+    if route == 2:
+        last, b._last_len = b._last_len, None
+        cube = b.cube({x: True for x in sub}) if sub else 1
+        b.incref(cube)       # operands of dd.bdd calls are referenced (precondition of C09/C03 under reordering)
+        b._last_len = last
+    if b._last_len is not None:
+        b._last_len = 1      # dynamic reordering enabled: make the request fire inside this very call
     if route == 0:
         r = b.quantify(u, set(sub), forall=fa)
     elif route == 1:
         r = (b.forall if fa else b.exist)(list(sub), u)
     elif route == 2:
         # apply: first operand's support gives the variables, second operand is the body
-        cube = b.cube({x: True for x in sub}) if sub else 1
         sp = SPELL_Q[fa][len(sub) % 2]
         r = b.apply(sp, cube, u)
         res.count('apply-quantifier-checked')
@@ -52,6 +59,8 @@ def _check_one(b, m, names, d, u, t, sub, fa, res, route):
         f = m._wrap(u)
         r = (m.forall if fa else m.exist)(set(sub), f).node if len(sub) % 2 else m.quantify(f, sub, fa).node
     got = d.of(r)
+    if cube is not None:
+        b.decref(cube)
     require(got == want, '_quantify#post:QE',
             lambda: f'route={route} tt={t} u={u} qvars={sub} forall={fa} order={b.vars}: got {got} want {want}')
     for j in js:
@@ -108,7 +117,12 @@ def case_sampled(c, res):
     m = A.BDD({nm: k for k, nm in enumerate(o)})
     b = m._bdd
     warm_up(b, names, rnd, steps=20)
-    d = Den(b, names)
+    dyn = bool(c.get('dyn'))
+    if dyn:
+        # dynamic reordering enabled with a small threshold: operands below are referenced
+        m.configure(reordering=True)
+        b._last_len = rnd.choice([1, 2, 4, 8])
+    d = Den(b, names) if not dyn else type('D', (), {'of': staticmethod(lambda u: den(b, u, names)), 'reset': staticmethod(lambda: None)})
     keys = []
     n = len(names)
     for _ in range(c['count']):
